@@ -170,6 +170,23 @@ def c19_run_single_helper(case):
 
 
 # ====================================================================== C18
+def c18_own_result(d, prior):
+    """The state settings_to_dict returns is the caller's own value: editing it reaches neither the prior state that was passed
+    in ("the arguments are not modified") nor what a later call reads from the default state ("from its default state")."""
+    from ansi_string.ansi_param import AnsiParamEffect
+    snap = None if prior is None else (dict(prior), list(prior))
+    d[AnsiParamEffect.ITALICS] = AnsiSetting('3')
+    d[AnsiParamEffect.BG_COLOR] = AnsiSetting('44')
+    d.pop(AnsiParamEffect.BOLDNESS, None)
+    if prior is not None and (dict(prior), list(prior)) != snap:
+        return 'editing the returned state changed the prior state that had been passed in: %s, was %s' % (
+            {k.name: str(v) for k, v in prior.items()}, {k.name: str(v) for k, v in snap[0].items()})
+    fresh = {k.name: str(v) for k, v in settings_to_dict(parse_graphic_sequence('1', False)).items()}
+    if fresh != {'BOLDNESS': '1'}:
+        return 'after the caller edited a state it had been given, the codes "1" read from the default state give %s' % fresh
+    return None
+
+
 def dict_state(d):
     """settings_to_dict result -> the shape of a terminal state (tuple of 14 groups)"""
     st = [None] * 14
@@ -273,6 +290,10 @@ def c18_run(rep, rng, tier, term):
                 continue
             if cs and toks != list(cs):
                 out.append({'oracle': 'C18.erroneous', 'case': payload, 'msg': 'tokens %s returned for input %s' % (toks, cs)})
+                continue
+            m = c18_own_result(d, None)
+            if m:
+                out.append({'oracle': 'C18.dict.own', 'case': payload, 'msg': m})
         # a list is the ';'-separated string split at ';' (an empty item is 0), and it is not modified
         for w in odd_strs:
             for ae in (False, True):
@@ -340,6 +361,10 @@ def c18_run(rep, rng, tier, term):
             if dict_state(d1) != exp:
                 out.append({'oracle': 'C18.dict', 'case': {'old': old, 'new': new},
                             'msg': 'dict %s, terminal %s' % (dict_state(d1), exp)})
+                continue
+            m = c18_own_result(d1, d0)
+            if m:
+                out.append({'oracle': 'C18.dict.own', 'case': {'old': old, 'new': new}, 'msg': m})
         return out
     for p in pairs:
         rep.count({'old': p[0], 'new': p[1]}, True)
@@ -408,11 +433,13 @@ def c18_replay(v, term):
         toks = [int(x) for st in parse_graphic_sequence(list(cs), True) for x in str(st).split(';')]
         if cs and toks != list(cs):
             return 'add_erroneous=True tokens %s' % toks
-        return None
+        return c18_own_result(d, None)
     if 'old' in case:
         old, new = case['old'], case['new']
         d0 = settings_to_dict(parse_graphic_sequence(list(old), False)) if old else {}
         d1 = settings_to_dict(parse_graphic_sequence(list(new), False), d0)
         exp = term.style(([';'.join(map(str, old))] if old else []) + ([';'.join(map(str, new))] if new else ['0']))
-        return None if dict_state(d1) == exp else 'dict %s, terminal %s' % (dict_state(d1), exp)
+        if dict_state(d1) != exp:
+            return 'dict %s, terminal %s' % (dict_state(d1), exp)
+        return c18_own_result(d1, d0)
     return None
